@@ -29,7 +29,8 @@ def run_one(m):
             if r.returncode != 0:
                 lines = [l.strip() for l in r.stdout.splitlines() if l.startswith('  C') or l.startswith('INCONCLUSIVE property')]
                 res.append('%s exit %d: %s' % (prop, r.returncode, (lines or ['?'])[0][:260]))
-        return m['id'], 'silent' if not res else 'ALARM', ' || '.join(res)
+        st = 'silent' if not res else ('ALARM' if any(' exit 1:' in x for x in res) else 'inconcl')
+        return m['id'], st, ' || '.join(res)
     finally:
         shutil.rmtree(d, ignore_errors=True)
 
@@ -44,11 +45,13 @@ def main():
     if sel:
         ms = [m for m in ms if m['id'] in sel]
     bad = 0
+    inc = 0
     with cf.ThreadPoolExecutor(max_workers=int(os.environ.get('SELFTEST_JOBS', '4'))) as ex:
         for mid, status, detail in ex.map(run_one, ms):
             print('%-34s %-8s %s' % (mid, status, detail))
             bad += status == 'ALARM'
-    print('benign refactors: %d, alarms: %d' % (len(ms), bad))
+            inc += status == 'inconcl'
+    print('benign refactors: %d, false VIOLATION alarms: %d, inconclusive (exit 2): %d' % (len(ms), bad, inc))
     return 1 if bad else 0
 
 
